@@ -425,7 +425,8 @@ def _descr(case):
 
 
 def subchecks():
+    from checks import c12_sram          # csr_bus.SRAM windows; CSRBankArray + gatherer + Interconnect(Shared)
     return [
         Sub("bank", run_case, strategy=st_case, examples=(3000, 100000),
             rule="CSRBank over generated register sets vs cycle-accurate model"),
-    ]
+    ] + c12_sram.subchecks()
